@@ -272,7 +272,11 @@ class TDConfig:
                 births.append(P.LogNormalBirth(ns, {n: 1.0 for n in ns}, {n: 0.7 for n in ns}))
         cls = families.FAMILIES[self.model_prop][0]
         kw = dict(successive={'k': bool(self.successive)})
-        if self.model_prop == 'bounded_discrete':
+        if self.model_prop == 'discrete':
+            # not what the class documents ("must be a discrete, bounded proposal"), but accepted:
+            # the only way to reach the symmetric branch of the Hastings-term logic
+            mp = cls(['k'], cov=[self.index_std ** 2], **kw)
+        elif self.model_prop == 'bounded_discrete':
             mp = cls(['k'], {'k': (self.kmin, self.kmax)}, cov=[self.index_std ** 2], **kw)
         elif self.model_prop == 'ss_adaptive_bounded_discrete':
             mp = cls(['k'], {'k': (self.kmin, self.kmax)}, cov=[self.index_std ** 2], **kw)
@@ -560,7 +564,7 @@ def plan_step(cfg, rng, k, active, want=None, std=None):
               for i in range(K) if dk > 0 and prop[i] and not active[i]}
     moves = {i: [cfg.random_value(rng, True) for _ in range(cfg.widths[i])]
              for i in range(K) if prop[i] and active[i]}
-    rejects = [reject_z(cfg, k, rng)] if rng.random() < 0.25 else []
+    rejects = [reject_z(cfg, k, rng)] if rng.random() < 0.25 and cfg.model_prop != 'discrete' else []
     r = rng.random()
     u = 0.0 if r < 0.45 else (1.0 if r < 0.6 else rng.random())
     return {'newk': newk, 'z': index_z(cfg, dk, rng), 'chosen': chosen,
@@ -583,8 +587,9 @@ def gen_case(rng, cid, pt=None, inner=None, birth=None):
     birth = birth or rng.choice(BIRTHS)
     pt = rng.random() < 0.5 if pt is None else pt
     betas = [1.0] if not pt else [1.0] + sorted(rng.sample([0.5, 0.25, 0.0], rng.randint(1, 2)), reverse=True)
+    r = rng.random()
     cfg = TDConfig(K, widths, kmin, kmax, successive, rng.choice([0.75, 1.0, 2.0]), birth, inner,
-                   model_prop=rng.choice(MODEL_PROPS if rng.random() < 0.3 else MODEL_PROPS[:1]),
+                   model_prop='discrete' if r < 0.12 else rng.choice(MODEL_PROPS if r < 0.4 else MODEL_PROPS[:1]),
                    extra=rng.choice([None, None, 'normal', 'bounded_normal']),
                    betas=betas, swap_interval=rng.choice([1, 1, 2]), window=rng.randint(3, 6),
                    inner_seed=rng.randint(0, 10 ** 6))
@@ -657,8 +662,11 @@ def run_case(case, plan_seed):
         td0 = td_of(real.levels[0])
         msym = bool(td0.model_proposal.symmetric)
         isym = [bool(p.symmetric) for p in td0.proposals]
+        unb = cfg.model_prop == 'discrete'             # an unbounded model proposal never raises on bounds
         lines[1] = 'cfg K=%d kmin=%d kmax=%d msym=%d isym=%s ntemps=%d' % (
-            cfg.K, cfg.kmin, cfg.kmax, int(msym), mask_str(isym), len(cfg.betas))
+            cfg.K, -10 ** 6 if unb else cfg.kmin, 10 ** 6 if unb else cfg.kmax, int(msym), mask_str(isym),
+            len(cfg.betas))
+        stats['td_symmetric_cases'] = int(bool(td0.symmetric))
         saved_state = None
         for op in case.ops:
             if op[0] == 'start':
@@ -1280,6 +1288,57 @@ def probe_unchecked_bounds(seed):
     return out
 
 
+def probe_corner_cases(seed):
+    """Inputs outside the hypotheses of C10_reachable_wf: what the real code does (reported, not judged)."""
+    out = []
+    cfg = TDConfig(3, [1, 1, 1], 0, 3, True, 2.0, 'uniform', 'normal')
+    with seeded_generator(seed + 11):
+        ch = Chain(cfg.params, cfg.model(), cfg.build(), bit_generator=1)
+        ch.start_position = cfg.point_dict(1, [[1.0], None, None])
+        for _ in range(5):
+            ch.step()
+        cur = pattern(cfg, ch.current_position)
+        new = [not b for b in cur]
+        ch.start_position = cfg.point_dict(sum(new), [[1.0] if b else None for b in new])
+        bad = wf_chain(cfg, ch, 'chain')
+        res = 'start_position assigned while 5 records are retained: %s' % (bad[0] if bad else 'still well formed')
+        try:
+            for _ in range(30):
+                ch.step()
+        except Exception as ex:
+            res += '; a later step raised %s: %s' % (type(ex).__name__, str(ex)[:80])
+        out.append(res)
+    cfg2 = TDConfig(2, [2, 1], 0, 2, True, 2.0, 'normal', 'normal')
+    with seeded_generator(seed + 12):
+        ch = Chain(cfg2.params, cfg2.model(), cfg2.build(), bit_generator=1)
+        d = cfg2.point_dict(1, [[1.0, 2.0], None])
+        d['c0_1'] = numpy.nan
+        try:
+            ch.start_position = d
+            res = 'start value with a partly-NaN component: accepted, _active_props=%s' % mask_str(ch._active_props)
+            for _ in range(10):
+                ch.step()
+        except Exception as ex:
+            res += '; a step raised %s: %s' % (type(ex).__name__, str(ex).splitlines()[0][:60])
+        out.append(res)
+    cfg3 = TDConfig(3, [1, 1, 1], 0, 3, True, 2.0, 'uniform', 'normal', betas=[1.0, 0.5])
+    with seeded_generator(seed + 13):
+        pt = ParallelTemperedChain(cfg3.params, cfg3.model(), cfg3.build(), betas=cfg3.betas, bit_generator=1)
+        for c in pt.chains:
+            c.start_position = cfg3.point_dict(1, [[1.0], None, None])
+        for _ in range(30):
+            pt.step()
+        stale = ['_state' in c._start for c in pt.chains]
+        try:
+            pt.start_position
+            res = 'no error'
+        except Exception as ex:
+            res = 'raises %s: %s' % (type(ex).__name__, ex)
+        out.append("after an accepted first step Chain._start keeps a stale '_state' entry (levels: %s); "
+                   'ParallelTemperedChain.start_position then %s' % (stale, res))
+    return out
+
+
 def replay_c10(payload):
     run = payload['run']
     r = C10Run(TDConfig.from_description(run['cfg']), run['seed'], run['mode'], [tuple(o) for o in run['ops']])
@@ -1560,7 +1619,9 @@ def c11_search(seed, ncfg, pairs_per_cfg):
             try:
                 bad, rec = c11_pair(cfg, beta, (k, comps), plan, law)
             except ScriptError as ex:
-                bad, rec = 'push-forward / scripting failed: %s' % ex, {'dk': 0}
+                bad, rec = 'push-forward / scripting failed: %s' % ex, {'dk': plan['newk'] - k}
+            except Exception as ex:                      # the real step raised
+                bad, rec = 'the real code raised %r on a scripted move' % (ex,), {'dk': plan['newk'] - k}
             cov['pairs'] += 1
             dk = rec.get('dk', 0)
             cov['births' if dk > 0 else 'deaths' if dk < 0 else 'same'] += 1
@@ -1580,6 +1641,8 @@ def c11_search(seed, ncfg, pairs_per_cfg):
                     key = 'c11-forced-reject'
                 if 'push-forward' in bad:
                     key = 'c11-index-law'
+                if 'the real code raised' in bad:
+                    key = 'c11-step-raised'
                 if not any(kk == key for kk, _, _ in findings):
                     findings.append((key, bad[:1200], {
                         'kind_of_input': 'c11-pair', 'cfg': cfg.describe(), 'beta': beta, 'x': [k, comps],
